@@ -2632,7 +2632,7 @@ namespace gch
         GCH_CPP20_CONSTEXPR explicit
         heap_temporary (alloc_interface& alloc_iface, Args&&... args)
           : m_interface (alloc_iface),
-            m_data_ptr  (alloc_iface.allocate (sizeof (value_ty)))
+            m_data_ptr  (alloc_iface.allocate (1))
         {
           GCH_TRY
           {
@@ -2640,7 +2640,7 @@ namespace gch
           }
           GCH_CATCH (...)
           {
-            m_interface.deallocate (m_data_ptr, sizeof (value_ty));
+            m_interface.deallocate (m_data_ptr, 1);
             GCH_THROW;
           }
         }
@@ -2649,7 +2649,7 @@ namespace gch
         ~heap_temporary (void)
         {
           m_interface.destroy (m_data_ptr);
-          m_interface.deallocate (m_data_ptr, sizeof (value_ty));
+          m_interface.deallocate (m_data_ptr, 1);
         }
 
         GCH_NODISCARD GCH_CPP20_CONSTEXPR
